@@ -299,6 +299,7 @@ fn expect_cmd(args: &[String]) -> i32 {
     let filename = match mode.as_str() {
         "eval" | "<eval>" => "<eval>".to_string(),
         "stdin" | "<stdin>" => "<stdin>".to_string(),
+        "devstdin" => "/dev/stdin".to_string(),
         other => other.to_string(),
     };
     match util::catch(|| library_run(&src, &filename)) {
@@ -695,6 +696,8 @@ fn run_binary(naija: &str, mode: &str, src: &str, file_path: &str, timeout_s: f6
         match mode {
             "file" => cmd.arg(file_path),
             "eval" => cmd.arg(format!("--eval={src}")),
+            // a script PATH whose `stat` size says nothing about its content (seed C14-d1): the pipe on fd 0
+            "devstdin" => cmd.arg("/dev/stdin"),
             _ => cmd.arg("-"),
         };
         cmd
@@ -783,6 +786,7 @@ fn run(args: &[String]) -> i32 {
     let filename_of = |j: &Job| match j.mode.as_str() {
         "file" => j.path.clone(),
         "eval" => "<eval>".to_string(),
+        "devstdin" => "/dev/stdin".to_string(),
         _ => "<stdin>".to_string(),
     };
     let _ = stdin_chunks; // `stdin@c1,c2,…` modes are cut in `run_binary`
@@ -873,6 +877,7 @@ fn run(args: &[String]) -> i32 {
                 let filename = match *mode {
                     "file" => format!("{tmpdir}/case_{i}.ns"),
                     "eval" => "<eval>".to_string(),
+                    "devstdin" => "/dev/stdin".to_string(),
                     _ => "<stdin>".to_string(),
                 };
                 let stderr_txt = String::from_utf8_lossy(&real.stderr).to_string();
@@ -1267,6 +1272,10 @@ fn generate(args: &[String]) -> i32 {
         let h = util::hex(src.as_bytes());
         for mode in ["file", "eval", "stdin"] {
             writeln!(w, "cli {mode} {facts} {h}").unwrap();
+        }
+        // one program in four also as a script path that is a pipe (`naija /dev/stdin`)
+        if rng.chance(1, 4) {
+            writeln!(w, "cli devstdin {facts} {h}").unwrap();
         }
         // stdin again, in several writes
         let big = label.starts_with("sized_") || label.starts_with("over_");
